@@ -203,8 +203,34 @@ func vScenarioC05(rc *runCtx) {
 		x.down[0].Atomic = func(d []byte) bool {
 			return bytes.Contains(d, []byte("cannot open")) || (prevAtomic != nil && prevAtomic(d))
 		}
+		// the header may announce a download, and a local rz may exist: the remote side has given up before the
+		// client's wait is over, so that helper is never started (what it would write is not the user's typing)
+		hdr3 := "rz waiting to receive.\r**\x18B0100000023be50\r\x8a\x11"
+		helperStarted := 0
+		if tp.Bool("c05.giveupdl", 500) {
+			hdr3 = "**\x18B00000000000000\r\x8a\x11"
+			x.execs[x.client] = func(req *verifsim.ExecRequest) (verifsim.ExecChild, error) {
+				if req.Name != "rz" {
+					return nil, fmt.Errorf("exec: %q: executable file not found in $PATH", req.Name)
+				}
+				helperStarted++
+				h := &vHelper{w: w, kind: "normal", name: req.Name, done: make(chan int, 1), killed: make(chan struct{})}
+				w.Go("helper.rz", nil, func() {
+					if req.Stdout != nil {
+						req.Stdout.Write([]byte("**\x18B0100000023be50\r\x8a\x11"))
+					}
+				})
+				return h, nil
+			}
+			defer delete(x.execs, x.client)
+		}
+		defer func() {
+			if helperStarted > 0 && rc.res.Class != "violation" {
+				rc.violate("started", "C05:helper-started-after-giveup", "the remote side gave up within the 100 ms the client waits after a zmodem header, yet the local rz was started %d time(s)", helperStarted)
+			}
+		}()
 		w.Go("zm", nil, func() {
-			x.down[0].Write([]byte("rz waiting to receive.\r**\x18B0100000023be50\r\x8a\x11"))
+			x.down[0].Write([]byte(hdr3))
 			verifsim.Sleep(time.Duration(20+tp.Draw("c05.giveup", 70)) * time.Millisecond)
 			shownFrom = x.term.NSentInt()
 			x.down[0].Write(complaint)
